@@ -248,6 +248,9 @@ pub fn featdigest(tier: Tier, seed: u64) {
     );
     fcases += res.iter().sum::<u64>();
     println!("FD-DIGEST function-cases {}", fcases);
+    // streaming (only builds with the `frontend` feature have it; reported, not compared between builds)
+    #[cfg(feature = "frontend")]
+    println!("FD-DIGEST streaming-schedules {}", crate::c19::feature_battery(&run));
     // S3: store exploration with every invariant
     let flags = Flags { canonical: true, functions: true, memo: true, queries: true };
     let mut states = 0;
@@ -427,7 +430,7 @@ pub fn run_c12(run: &Run) {
         sections += digests.len() as u64;
         // the number of distinct store states depends on the feature set by construction (the state key holds the
         // bookkeeping tables, which some feature sets do not have), so it is reported but not compared
-        let comparable = |d: &Vec<String>| -> Vec<String> { d.iter().filter(|l| !l.starts_with("FD-DIGEST store-states")).cloned().collect() };
+        let comparable = |d: &Vec<String>| -> Vec<String> { d.iter().filter(|l| !l.starts_with("FD-DIGEST store-states") && !l.starts_with("FD-DIGEST streaming-schedules")).cloned().collect() };
         match &reference {
             None => reference = Some(digests.clone()),
             Some(r) => {
